@@ -417,6 +417,119 @@ def judge(r_py, o):
     return None
 
 
+# ---- the round trip as a history (spec/PkgRelationMemo.tla): nothing an earlier call returned, and
+# nothing the caller did to it, may influence a later parse or format
+
+def edit_in_place(p):
+    """what a caller may do to a structure it got from parse_relations: every nested list is edited
+    IN PLACE (append / reverse), keys are popped and replaced, the outer lists are reordered"""
+    from debian.deb822 import PkgRelation
+    try:
+        for alts in p:
+            for d in alts:
+                a = d.get("arch")
+                if isinstance(a, list):
+                    a.append(PkgRelation.ArchRestriction(False, "bogus-arch"))
+                    a.reverse()
+                r = d.get("restrictions")
+                if isinstance(r, list):
+                    for g in r:
+                        if isinstance(g, list):
+                            g.reverse()
+                            g.append(PkgRelation.BuildRestriction(True, "bogus"))
+                    r.append([PkgRelation.BuildRestriction(False, "extra")])
+                d.pop("version", None)
+                d.pop("archqual", None)
+                d["name"] = "edited-%s" % (d.get("name"),)
+            alts.reverse()
+        p.append([])
+    except Exception:            # noqa: BLE001 -- a result of the wrong shape was judged before
+        pass
+
+
+def edited_copy(r_py):
+    """a deep copy of r with its nested lists edited -- still a structure of the domain"""
+    from debian.deb822 import PkgRelation
+    rc = copy.deepcopy(r_py)
+    for alts in rc:
+        for d in alts:
+            if d["arch"] is not None:
+                d["arch"].reverse()
+                d["arch"].append(PkgRelation.ArchRestriction(False, "bogus-arch"))
+            if d["restrictions"] is not None:
+                for g in d["restrictions"]:
+                    g.reverse()
+                    g.append(PkgRelation.BuildRestriction(True, "bogus"))
+                d["restrictions"].append([PkgRelation.BuildRestriction(False, "extra")])
+            if d["version"] is not None:
+                d["version"] = (">>" if d["version"][0] != ">>" else "=", d["version"][1] + "+b1")
+    return rc
+
+
+def sharing_structure(r_py):
+    """a different relation that shares one alternative with r (the first one with a nested list)"""
+    atoms = [d for alts in r_py for d in alts]
+    pick = next((d for d in atoms if d["arch"] is not None or d["restrictions"] is not None), atoms[0])
+    return [[{"name": "zz-shared", "archqual": None, "version": None, "arch": None, "restrictions": None}],
+            [copy.deepcopy(pick)]]
+
+
+def run_history(r_py, o, with_copy=True):
+    """continues the round trip `o` of r: (1) str(r) again after an edited deep copy was formatted,
+    (2) the caller edits the returned structure in place and the SAME string is parsed again,
+    (3) a different relation sharing an alternative makes the round trip.  -> dict of observations"""
+    from debian.deb822 import PkgRelation
+    h = {"exc": "", "fmtsame": True, "rc": None, "o_rc": None, "p2": None, "warn2": [], "s2b": None,
+         "r_share": None, "o_share": None}
+    stage = "PkgRelation.str (second time)"
+    try:
+        if with_copy:
+            h["rc"] = edited_copy(r_py)
+            if with_copy == "fmt":                  # format only (the recorder logs the copy as its own trace)
+                PkgRelation.str(h["rc"])
+            else:
+                h["o_rc"] = run_real(h["rc"])
+            h["fmtsame"] = PkgRelation.str(r_py) == o["s"]
+        edit_in_place(o["p"])
+        stage = "parse_relations (second time)"
+        with warnings.catch_warnings(record=True) as w:
+            warnings.simplefilter("always")
+            h["p2"] = PkgRelation.parse_relations(o["s"])
+            stage = "PkgRelation.str of the second parse"
+            h["s2b"] = PkgRelation.str(h["p2"])
+        h["warn2"] = ["%s: %s" % (x.category.__name__, x.message) for x in w]
+    except Exception as e:       # noqa: BLE001 -- observation
+        h["exc"] = "%s in %s: %s" % (type(e).__name__, stage, e)
+        return h
+    h["r_share"] = sharing_structure(r_py)
+    h["o_share"] = run_real(h["r_share"])
+    return h
+
+
+def judge_history(r_py, o, h):
+    """same verdict observables, for the later calls of the history: Parse does not depend on what
+    was parsed or edited before (PkgRelationMemo: MemoTransparent)"""
+    if h["exc"]:
+        return "after the caller edited the result of parse_relations(%r) in place: raised %s" % (o["s"], h["exc"])
+    if not h["fmtsame"]:
+        return "str(r) no longer gives %r after an edited copy of r was formatted" % (o["s"],)
+    if h["o_rc"] is not None:
+        m = judge(h["rc"], h["o_rc"])
+        if m:
+            return "edited copy of r (right after r itself made the round trip): " + m
+    if h["p2"] != r_py:
+        return ("parse_relations(%r) -- parsed before, the caller edited that result in place -- = %r, "
+                "specification (Parse does not depend on history): %r" % (o["s"], h["p2"], r_py))
+    if h["warn2"]:
+        return "second parse_relations(%r) emitted %r" % (o["s"], h["warn2"][0])
+    if h["s2b"] != o["s"]:
+        return "str of the second parse_relations(%r) = %r" % (o["s"], h["s2b"])
+    m = judge(h["r_share"], h["o_share"])
+    if m:
+        return "relation sharing an alternative with %r (whose parse the caller had edited in place): %s" % (o["s"], m)
+    return None
+
+
 def type_drift(p):
     from debian.deb822 import PkgRelation
     for alts in p:
@@ -451,7 +564,7 @@ def deb822_path(ctx, s, r_py):
         ctx.drift("relations property raised %s: %s for %r" % (type(e).__name__, e, s))
 
 
-def check_case(ctx, rel_abs, codes, conc, diag):
+def check_case(ctx, rel_abs, codes, conc, diag, with_copy=True):
     """one concretization of one TLC case; returns (message or None, produced string)"""
     r_py = build(rel_abs, conc)
     o = run_real(r_py)
@@ -468,6 +581,7 @@ def check_case(ctx, rel_abs, codes, conc, diag):
                 diag["types"] = diag.get("types", 0) + 1
                 if diag["types"] <= 3:
                     ctx.drift("%s for %r" % (td, o["s"]))
+        msg = judge_history(r_py, o, run_history(r_py, o, with_copy=with_copy))
     return msg, o["s"], r_py
 
 
@@ -490,8 +604,8 @@ def _case_of(line):
     return json.loads(body), zlib.crc32(body.encode())
 
 
-def follow_cases(workdir, running):
-    """yield (json value, crc of the text) for the <<"CASE", "json">> lines of the raw output of the TLC
+def follow_lines(workdir, running):
+    """yield the <<"CASE", "json">> lines of the raw output of the TLC
     run whose scratch directory is `workdir`, WHILE TLC is still writing it (`running()` tells whether
     it is); only complete lines are consumed"""
     import glob
@@ -516,7 +630,7 @@ def follow_cases(workdir, running):
                     continue
                 line, pending = pending, ""
                 if line.startswith('<<"CASE", "'):
-                    yield _case_of(line)
+                    yield line
                 continue
             if not alive:
                 if pending.startswith('<<"CASE", "'):
@@ -537,6 +651,19 @@ def spec_negative_controls(ctx):
         if r.violated != inv:
             raise core.MachineryError("negative control %s: expected TLC to report %s, got %r" % (const, inv, r.violated))
         done.append("%s -> %s" % (const, inv))
+    # the history model: a memo layer in front of the reference parser is invisible unless its results
+    # share nested lists with it
+    base = open(os.path.join(core.SPEC, "MC_PkgRelationMemo.cfg")).read()
+    r = ctx.tlc("PkgRelationMemo", "MC_PkgRelationMemo.cfg", workers=1, java_opts=["-XX:ParallelGCThreads=2"])
+    if r.violated:
+        raise core.MachineryError("specification PkgRelationMemo violates %s\n%s" % (r.violated, r.tail))
+    cfg = base.replace("SharedNested = FALSE", "SharedNested = TRUE")
+    assert cfg != base
+    cfg = re.sub(r"(?m)^INVARIANT (?!MemoTransparent$).*\n", "", cfg)
+    r = ctx.tlc("PkgRelationMemo", cfg, workers=1, count=False, java_opts=["-XX:ParallelGCThreads=2"])
+    if r.violated != "MemoTransparent":
+        raise core.MachineryError("negative control SharedNested: expected TLC to report MemoTransparent, got %r" % (r.violated,))
+    done.append("SharedNested -> MemoTransparent (PkgRelationMemo)")
     return done
 
 
@@ -550,33 +677,51 @@ def parts_key(a):
     return "".join(ch for ch, on in (("q", a["q"]), ("v", a["v"]["some"]), ("a", a["a"]["some"]), ("r", a["r"]["some"])) if on) or "-"
 
 
-def replay_cases(ctx, cases, quick):
-    # pre-drawn concretizations (seeded), selected per case by a hash of the case: TLC's output order
-    # depends on thread timing, what is done with a case must not
-    full = {"name": 8, "qual": 8, "ver": 8, "arch": 4, "prof": 6}
-    canon = Conc.draw(ctx.rng, full, canonical=True)
-    pool = [Conc.draw(ctx.rng, full) for _ in range(256)]
-    ncase = nrun = 0
-    per_shape, per_parts, per_op = {}, {}, {}
-    diag = {}
-    failing = []            # (crc, case dict, message): the smallest keys are reported (TLC's output order varies)
-    samples = {}
-    nfail = 0
-    for v, h in cases:
-        ncase += 1
+FULL_NEED = {"name": 8, "qual": 8, "ver": 8, "arch": 4, "prof": 6}
+_W = {}          # set in the parent before the replay workers are forked
+
+
+class _Drifts:
+    """stands in for ctx inside a replay worker: diagnostics are sent back with the chunk result"""
+
+    def __init__(self):
+        self.items = []
+
+    def drift(self, what):
+        if len(self.items) < 10:
+            self.items.append(what)
+
+
+def prepare_replay(ctx, quick):
+    """pre-drawn concretizations (seeded), selected per case by a hash of the case: TLC's output order
+    depends on thread timing, what is done with a case must not.  Returns the pool of worker
+    processes (forked here, before any thread is started)."""
+    import multiprocessing
+    _W.update(seed=ctx.seed, quick=quick,
+              canon=Conc.draw(ctx.rng, FULL_NEED, canonical=True),
+              pool=[Conc.draw(ctx.rng, FULL_NEED) for _ in range(256)])
+    return multiprocessing.get_context("fork").Pool(3 if quick else 4)
+
+
+def _replay_chunk(lines):
+    """worker: replay the CASE lines of one chunk; everything is returned, nothing printed"""
+    quick, seed, canon, pool = _W["quick"], _W["seed"], _W["canon"], _W["pool"]
+    dr = _Drifts()
+    res = {"ncase": 0, "nrun": 0, "nfail": 0, "per_shape": {}, "per_parts": {}, "per_op": {}, "diag": {},
+           "failing": [], "samples": {}, "keys": [], "trivial": 0}
+    per_shape, per_parts, per_op, diag = res["per_shape"], res["per_parts"], res["per_op"], res["diag"]
+    for line in lines:
+        v, h = _case_of(line)
+        res["ncase"] += 1
         rel_abs = case_to_abstract(v["r"])
         need = need_of(rel_abs)
-        if any(need[k] > full[k] for k in need):
+        if any(need[k] > FULL_NEED[k] for k in need):
             raise core.MachineryError("CASE needs more payload ids than the pre-drawn tables have: %r" % (need,))
         sk = shape_key(rel_abs)
         per_shape[sk] = per_shape.get(sk, 0) + 1
-        nontrivial = False
-        for alts in rel_abs:
-            for a in alts:
-                pk = parts_key(a)
-                nontrivial = nontrivial or pk != "-"
-        # the focus atom is the one that is not the context atom; count all atoms' combinations once per case
-        for pk in {parts_key(a) for alts in rel_abs for a in alts}:
+        parts = {parts_key(a) for alts in rel_abs for a in alts}
+        # (the focus atom is not marked: count every optional-part combination once per case)
+        for pk in parts:
             per_parts[pk] = per_parts.get(pk, 0) + 1
         for op in {a["v"]["op"] for alts in rel_abs for a in alts if a["v"]["some"]}:
             per_op[OPS[op - 1]] = per_op.get(OPS[op - 1], 0) + 1
@@ -587,38 +732,80 @@ def replay_cases(ctx, cases, quick):
         else:
             plans = [True, False] if h % 4 == 0 else [False]
         for canonical in plans:
-            conc = canon if canonical else pool[(h ^ ctx.seed * 40503) % len(pool)]
-            msg, s, r_py = check_case(ctx, rel_abs, v["t"], conc, diag)
-            nrun += 1
+            conc = canon if canonical else pool[(h ^ seed * 40503) % len(pool)]
+            # the edited copy of r makes its own round trip for every 4th (thorough: 2nd) case
+            msg, s, r_py = check_case(dr, rel_abs, v["t"], conc, diag, with_copy=(h >> 3) % (4 if quick else 2) == 0)
+            res["nrun"] += 1
             if msg:
-                nfail += 1
-                # report the smallest failing structures (canonical payload first)
+                res["nfail"] += 1
+                # the smallest failing structures are reported (canonical payload first)
                 key = (sum(len(x) for x in rel_abs), len(v["t"]), not canonical, h)
-                if len(failing) < 50 or key < failing[-1][0]:
-                    failing.append((key, {"kind": "case", "abstract": rel_abs, "tokens": v["t"], "conc": conc.to_json(),
-                                          "string": s}, msg))
-                    failing.sort(key=lambda x: x[0])
-                    del failing[50:]
+                res["failing"].append((key, {"kind": "case", "abstract": rel_abs, "tokens": v["t"], "conc": conc.to_json(),
+                                             "string": s}, msg))
+                res["failing"].sort(key=lambda x: x[0])
+                del res["failing"][20:]
                 break
-        ctx.case_seen(("case", h), nontrivial)
+        if parts != {"-"}:
+            res["keys"].append(h)
+        else:
+            res["trivial"] += 1
         if h % 97 == 0 and msg is None:
-            deb822_path(ctx, s, r_py)
+            deb822_path(dr, s, r_py)
             diag["deb822_path"] = diag.get("deb822_path", 0) + 1
         if h % 1021 < 2 and msg is None and 2 <= sum(len(x) for x in rel_abs) <= 3 and not plans[-1]:
-            samples[h] = "CASE %s: %s -> %r parses back to the structure, no warning, same string again" % (
+            res["samples"][h] = "CASE %s: %s -> %r parses back to the structure, no warning, same string again; so do the same string after the caller edited the result in place and a relation sharing an alternative" % (
                 sk, json.dumps(v["r"], separators=(",", ":")), s)
+    res["drifts"] = dr.items
+    return res
+
+
+def replay_cases(ctx, lines, quick, workers):
+    """replay every CASE line (worker processes), merge what they found"""
+    import threading
+    inflight = threading.Semaphore(24)          # bounds the lines held in memory
+
+    def chunks():
+        buf = []
+        for line in lines:
+            buf.append(line)
+            if len(buf) >= 300:
+                inflight.acquire()
+                yield buf
+                buf = []
+        if buf:
+            inflight.acquire()
+            yield buf
+    tot = {"ncase": 0, "nrun": 0, "nfail": 0, "trivial": 0}
+    per = {"per_shape": {}, "per_parts": {}, "per_op": {}, "diag": {}}
+    failing, samples, drifts = [], {}, []
+    for res in workers.imap_unordered(_replay_chunk, chunks()):
+        inflight.release()
+        for k in tot:
+            tot[k] += res[k]
+        for name, d in per.items():
+            for k, n in res[name].items():
+                d[k] = d.get(k, 0) + n
+        failing = sorted(failing + res["failing"], key=lambda x: x[0])[:20]
+        samples.update(res["samples"])
+        drifts += res["drifts"]
+        for h in res["keys"]:
+            ctx.distinct.add(("case", h))
+    ctx.evaluations += tot["ncase"]
     for _, case, msg in failing[:ctx.max_violation_files]:
         ctx.violation(case, msg)
+    for d in sorted(set(drifts))[:6]:
+        ctx.drift(d)
     for h in sorted(samples)[:3]:
         ctx.sample(samples[h])
-    ctx.extra["cases_replayed"] = ncase
-    ctx.extra["real_round_trips_in_replay"] = nrun
-    ctx.extra["cases_failing"] = nfail
-    ctx.extra["cases_per_list_shape"] = dict(sorted(per_shape.items()))
-    ctx.extra["cases_per_optional_part_combination"] = dict(sorted(per_parts.items()))
-    ctx.extra["cases_per_operator"] = dict(sorted(per_op.items()))
-    ctx.extra["diagnostics"] = diag
-    return ncase
+    ctx.extra["cases_replayed"] = tot["ncase"]
+    ctx.extra["real_round_trips_in_replay"] = tot["nrun"]
+    ctx.extra["histories_in_replay"] = "every case: edit the parsed structure in place, parse the same string again, round trip of a relation sharing an alternative; every %s case also the round trip of an edited copy and str(r) again" % ("4th" if quick else "2nd")
+    ctx.extra["cases_failing"] = tot["nfail"]
+    ctx.extra["cases_per_list_shape"] = dict(sorted(per["per_shape"].items()))
+    ctx.extra["cases_per_optional_part_combination"] = dict(sorted(per["per_parts"].items()))
+    ctx.extra["cases_per_operator"] = dict(sorted(per["per_op"].items()))
+    ctx.extra["diagnostics"] = dict(sorted(per["diag"].items()))
+    return tot["ncase"]
 
 
 # ------------------------------------------------------------------ unspecified zone
@@ -690,27 +877,50 @@ def random_structure(rng):
 
 
 def record(r_py):
-    """one trace: the structure, what the real code made of it, everything interned to ids"""
+    """one trace: the structure, what the real code made of it (first round trip, then the history:
+    edit the result in place and parse the same string again, round trip of a relation sharing an
+    alternative, str(r) again after formatting an edited copy), everything interned to ids"""
     conc = empty_conc()
     r_abs = abstract(r_py, conc)              # the harness' own structure: always well-formed
     o = run_real(r_py)
     exc = o["exc"].split(" ")[0] if o["exc"] else ""
+    observed = {"parsed": repr(o["p"]), "warnings": o["warn"], "exception": o["exc"], "second_string": o["s2"]}
     p_abs = []
     if not exc:
         try:
             p_abs = abstract(o["p"], conc)
         except Malformed as e:
             exc = "MalformedResult"
-            o["exc"] = "parse_relations returned a value of the wrong shape (%s)" % e
+            observed["exception"] = "parse_relations returned a value of the wrong shape (%s)" % e
     trace = {"kind": "rt", "r": r_abs,
              "t": tokenize(o["s"], conc) if o["s"] is not None else [],
              "p": p_abs,
              "warn": bool(o["warn"]),
              "exc": exc,
              "t2": tokenize(o["s2"], conc) if o["s2"] is not None else [],
-             "same": o["s2"] is not None and o["s2"] == o["s"]}
-    meta = {"kind": "trace", "abstract": r_abs, "conc": conc.to_json(), "string": o["s"], "observed": {
-        "parsed": repr(o["p"]), "warnings": o["warn"], "exception": o["exc"], "second_string": o["s2"]}}
+             "same": o["s2"] is not None and o["s2"] == o["s"],
+             "p2": [], "warn2": False, "same2": False, "rs": [], "ts": [], "ps": [], "warns": False, "sames": False,
+             "fmtsame": False}
+    if not exc:
+        h = run_history(r_py, o, with_copy="fmt")
+        osh = h["o_share"]
+        hexc = h["exc"] or (osh["exc"] if osh else "")
+        observed["history"] = {
+            "second_parse_after_in_place_edit": repr(h["p2"]), "warnings": h["warn2"], "exception": hexc,
+            "str_r_unchanged_after_formatting_an_edited_copy": h["fmtsame"],
+            "sharing_relation_string": osh["s"] if osh else None, "sharing_relation_parse": repr(osh["p"]) if osh else None,
+            "sharing_relation_warnings": osh["warn"] if osh else None}
+        try:
+            if hexc:
+                raise Malformed(hexc)
+            trace.update({"p2": abstract(h["p2"], conc), "warn2": bool(h["warn2"]), "same2": h["s2b"] == o["s"],
+                          "rs": abstract(h["r_share"], conc), "ts": tokenize(osh["s"], conc),
+                          "ps": abstract(osh["p"], conc), "warns": bool(osh["warn"]), "sames": osh["s2"] == osh["s"],
+                          "fmtsame": bool(h["fmtsame"])})
+        except Malformed as e:
+            trace["exc"] = hexc.split(" ")[0] if hexc else "MalformedResult"
+            observed["exception"] = hexc or "a later parse_relations returned a value of the wrong shape (%s)" % e
+    meta = {"kind": "trace", "abstract": r_abs, "conc": conc.to_json(), "string": o["s"], "observed": observed}
     return trace, meta
 
 
@@ -818,6 +1028,25 @@ def control_traces(traces):
     if t:                                           # an exception was raised
         t["exc"] = "TypeError"
         out.append(t)
+    t = first(lambda t: any(a["a"]["some"] for alts in t["r"] for a in alts))
+    if t:                                           # the second parse shows the caller's edit (a sharing memo)
+        for alts in t["p2"]:
+            for a in alts:
+                if a["a"]["some"]:
+                    a["a"]["l"].append({"e": False, "id": 1})
+        out.append(t)
+    t = first(lambda t: True)
+    if t:                                           # the sharing relation came back with a warning
+        t["warns"] = True
+        out.append(t)
+    t = first(lambda t: True)
+    if t:                                           # the sharing relation lost its first conjunct
+        t["ps"] = t["ps"][1:]
+        out.append(t)
+    t = first(lambda t: True)
+    if t:                                           # the formatter remembered the edited copy
+        t["fmtsame"] = False
+        out.append(t)
     for t in traces:
         if t["kind"] == "probe" and not t["exc"]:   # a probe whose warning flag is wrong
             out.append(dict(copy.deepcopy(t), warn=not t["warn"]))
@@ -826,7 +1055,9 @@ def control_traces(traces):
 
 
 STEP = {0: "the string (diagnostic step)", 1: "Parse does not explain what parse_relations returned",
-        2: "Inverse / NoWarning", 3: "Stable"}
+        2: "Inverse / NoWarning", 3: "Stable",
+        4: "history: the same string parsed again after the caller edited the first result in place",
+        5: "history: a relation sharing an alternative / str(r) after formatting an edited copy"}
 
 
 BATCH = 4000     # traces per TLC invocation (JsonDeserialize holds the whole file in memory)
@@ -834,7 +1065,7 @@ BATCH = 4000     # traces per TLC invocation (JsonDeserialize holds the whole fi
 
 def validate(ctx, traces, with_controls=True, workers=2):
     controls = control_traces(traces) if with_controls else []
-    if with_controls and len(controls) < 5:
+    if with_controls and len(controls) < 9:
         raise core.MachineryError("only %d control traces could be built" % len(controls))
     rejected, fmt_drift, info = [], [], {}
     for lo in range(0, len(traces), BATCH):
@@ -859,6 +1090,13 @@ def explain(meta, at):
     o = meta["observed"]
     if o["exception"]:
         return "str(r) = %r; raised %s" % (meta["string"], o["exception"])
+    if at >= 4 and o.get("history"):
+        hh = o["history"]
+        return "[%s] str(r) = %r; first parse_relations returned %s; after the in-place edit it returned %s%s; sharing relation %r parsed as %s%s; str(r) unchanged after formatting an edited copy: %s" % (
+            STEP.get(at, "?"), meta["string"], o["parsed"], hh["second_parse_after_in_place_edit"],
+            ("; warnings %r" % hh["warnings"]) if hh["warnings"] else "", hh["sharing_relation_string"],
+            hh["sharing_relation_parse"], ("; warnings %r" % hh["sharing_relation_warnings"]) if hh["sharing_relation_warnings"] else "",
+            hh["str_r_unchanged_after_formatting_an_edited_copy"])
     return "[%s] str(r) = %r; parse_relations returned %s%s; second string %r" % (
         STEP.get(at, "?"), meta["string"], o["parsed"], ("; warnings %r" % o["warnings"]) if o["warnings"] else "",
         o["second_string"])
@@ -866,10 +1104,15 @@ def explain(meta, at):
 
 def make_traces(ctx, n, nprobe):
     traces, metas = [], []
-    for _ in range(n):
-        tr, meta = record(random_structure(ctx.rng))
+    while len(traces) < n:
+        r_py = random_structure(ctx.rng)
+        tr, meta = record(r_py)
         traces.append(tr)
         metas.append(meta)
+        if len(traces) % 4 == 0 and len(traces) < n:      # an edited copy right after the original
+            tr, meta = record(edited_copy(r_py))
+            traces.append(tr)
+            metas.append(meta)
     for _ in range(nprobe):
         try:
             tr, meta = record_probe(ctx.rng, random_structure(ctx.rng))
@@ -933,6 +1176,14 @@ def run(ctx):
     ]
     mc_dir = os.path.join(ctx.work, "mc")
     os.makedirs(mc_dir)
+    workers = prepare_replay(ctx, quick)        # forked before any thread exists
+    try:
+        _run_parallel(ctx, quick, cfg, mc_dir, workers)
+    finally:
+        workers.terminate()
+
+
+def _run_parallel(ctx, quick, cfg, mc_dir, workers):
     with ThreadPoolExecutor(max_workers=3) as pool:
         # 1. design level + emission (closed): all structures of the space, in the background (the
         #    bookkeeping of ctx.tlc is done below, in this thread)
@@ -945,7 +1196,7 @@ def run(ctx):
         traces, metas = make_traces(ctx, *((1500, 400) if quick else (20000, 4000)))
         f_val = pool.submit(validate, ctx, traces, True, 2 if quick else 4)
         # 4. spec -> code: every CASE line, replayed while TLC is still enumerating
-        ncase = replay_cases(ctx, follow_cases(mc_dir, lambda: not f_mc.done()), quick)
+        ncase = replay_cases(ctx, follow_lines(mc_dir, lambda: not f_mc.done()), quick, workers)
         r = f_mc.result()
         shutil.rmtree(mc_dir, ignore_errors=True)
         if r.violated:
